@@ -146,7 +146,9 @@ def main():
             "Coq 8.16.1 kernel + vm_compute (no native_compute)",
             "axioms reported by Print Assumptions for this property's theorems: " + (", ".join(axioms) if axioms else "none (Closed under the global context)"),
             "hand-written model " + mod.IMPORTS + " tied to /repo by the correspondence run below (model evaluated in Coq by vm_compute on generated case files)",
-        ] + (["decision table(s) re-translated from the source on this run by harness/tables.py (fail-closed ast walker) and proved equal to the model's: " + ", ".join(proof["tables"])] if proof.get("tables") else [])
+        ] + (["source ties re-established on this run by harness/tables.py and closed by coqc (check_flags: fail-closed ast translation of the snapshot-flag table, proved equal to the model's; "
+              "check_initsnap: the real get_initial_snapshot run on every reader/consumer schedule of <= 9 moves through scripted stand-ins for its queue and thread, outcomes proved equal to InitSnap.v's): "
+              + ", ".join(proof["tables"])] if proof.get("tables") else [])
           + list(getattr(mod, "TRUSTED", [])),
         "theorems": proof.get("theorems", []) + [f"tables.{t}" for t in proof.get("tables", [])],
         "evaluations": len(cases), "distinct_nontrivial": len(keys), "rule": getattr(mod, "RULE", ""),
